@@ -68,8 +68,11 @@ func (m *MACPayload) decode(payload []byte, pos *int) error {
 
 	m.FPort = payload[*pos]
 	*pos++
+	// The FRMPayload ends where the MIC starts
+	end := *pos + payloadLength - 1
 	if m.FPort == 0 {
-		m.MACCommands = NewMACCommandSet(m.MACCommands.Message(), payloadLength)
+		// The MAC commands can't be longer than the FRMPayload (the port isn't a part of it)
+		m.MACCommands = NewMACCommandSet(m.MACCommands.Message(), payloadLength-1)
 		if err := m.MACCommands.decode(payload, pos); err != nil {
 			if err == errUnknownMAC {
 				return nil
@@ -78,7 +81,7 @@ func (m *MACPayload) decode(payload []byte, pos *int) error {
 		}
 	}
 
-	m.FRMPayload = payload[*pos : *pos+payloadLength-1]
+	m.FRMPayload = payload[*pos:end]
 
 	return nil
 }
